@@ -4,7 +4,7 @@
    the correspondence executes the same definitions over Z_(2^61-1). *)
 From Coq Require Import List NArith Bool Arith Field QArith Qcanon.
 Import ListNotations.
-From VF Require Import C17.Model C17.Proofs C17.ExpProofs.
+From VF Require Import C17.Model C17.Proofs C17.ExpProofs C17.CredModel C17.CredProofs.
 
 (* ---------- codec ---------- *)
 (* what DeriveProof writes as payload is read back by VerifyProof as the same count and the same revealed indexes,
@@ -366,6 +366,86 @@ Theorem proof_buffer_untouched_asis_refuted :
   proof_after_verify AsIs [0; 9; 1; 20; 7]%N <> [0; 9; 1; 20; 7]%N.
 Proof. vm_compute. discriminate. Qed.
 Print Assumptions proof_buffer_untouched_asis_refuted.
+
+(* ---------- the credential level (bbsblssignatureproof2020): statements, indexes, exact statement count ---------- *)
+(* the holder rewrites every blank node label of a signed statement into a urn:bnid: IRI, the verifier rewrites back:
+   the signed statement returns, for every statement that does not itself name such an IRI - and ONLY for those *)
+Theorem blank_roundtrip : forall s, has_bnid s = false -> from_bnid (to_bnid s) = s.
+Proof. exact blank_roundtrip_lemma. Qed.
+Print Assumptions blank_roundtrip.
+
+Theorem blank_roundtrip_guard_exact : forall s, has_bnid s = true -> from_bnid (to_bnid s) <> s.
+Proof. exact blank_roundtrip_guard_exact. Qed.
+Print Assumptions blank_roundtrip_guard_exact.
+
+(* every statement of the reveal document is the rewritten signed statement AT THE INDEX the holder reveals for it *)
+Theorem cred_revealed_are_signed : forall D RV dri, doc_reveal_indexes D RV = Some dri ->
+  Forall2 (fun c i => exists d, nth_error D i = Some d /\ c = to_bnid d) RV dri.
+Proof. exact reveal_indexes_lemma. Qed.
+Print Assumptions cred_revealed_are_signed.
+
+(* for all proof statements P, document statements D and document indexes dri (any order, repetitions): the mask of
+   the derived proof selects from the signed vector P ++ D every proof statement and exactly the document statements
+   at the indexes dri *)
+Theorem cred_selection : forall (P D : list stmt) dri,
+  mask_of (length P + length D) (cred_reveal (length P) dri) = repeat true (length P) ++ mask_of (length D) dri /\
+  select (mask_of (length P + length D) (cred_reveal (length P) dri)) (P ++ D) = P ++ select (mask_of (length D) dri) D.
+Proof. intros. split; [apply cred_mask_lemma|apply cred_selection_lemma]. Qed.
+Print Assumptions cred_selection.
+
+(* END TO END, from the statement lists to VerifyProof: for every P, D, dri, signature, nonce, prover randomness and
+   message encoding: if the statements the suite hands its verifier are, after the verifier's rewriting, P followed by
+   the selected document statements (the order-restoration condition; evaluated by the correspondence on every recorded
+   credential), then the repaired suite (exact statement count, /repo 8e44881) accepts the derived proof *)
+Theorem cred_disclose_and_prove : forall F f0 f1 fadd fmul fsub fopp fdiv finv feqb H gen (enc : stmt -> F),
+  is_field F f0 f1 fadd fmul fsub fopp fdiv finv -> decides_eq F feqb ->
+  forall w (P D vdoc : list stmt) dri sg nonce r1 r2 bl pf,
+  derive_m F f0 f1 fadd fmul fsub fopp fdiv feqb H gen w (map enc (holder_messages P D)) sg nonce
+           (mask_of (length P + length D) (cred_reveal (length P) dri)) r1 r2 bl = Some pf ->
+  r1 <> f0 ->
+  verifier_messages vdoc = P ++ select (mask_of (length D) dri) D ->
+  verify_m F f0 f1 fadd fmul fsub fopp feqb H gen true Fixed w pf nonce (map enc (verifier_messages vdoc)) = VAccept /\
+  suite_count_ok (p_mask pf) vdoc = true.
+Proof. intros until enc. intros Hf Hd. exact (cred_complete_lemma F f0 f1 fadd fmul fsub fopp fdiv finv Hf feqb Hd H gen enc). Qed.
+Print Assumptions cred_disclose_and_prove.
+
+(* FULL exact-count statement at the credential level: a document the repaired suite accepts has exactly as many
+   statements as the proof reveals - no statement can be added to a derived credential *)
+Theorem cred_exact_statements : forall F f0 f1 fadd fmul fsub fopp fdiv finv feqb H gen (enc : stmt -> F),
+  is_field F f0 f1 fadd fmul fsub fopp fdiv finv -> decides_eq F feqb ->
+  forall w pf nonce (vdoc : list stmt),
+  verify_m F f0 f1 fadd fmul fsub fopp feqb H gen true Fixed w pf nonce (map enc (verifier_messages vdoc)) = VAccept ->
+  length vdoc = count_true (p_mask pf).
+Proof. intros until enc. intros Hf Hd. exact (cred_exact_lemma F f0 f1 fadd fmul fsub fopp feqb Hd H gen enc). Qed.
+Print Assumptions cred_exact_statements.
+
+(* the suite AS FOUND (no count check; before 8e44881) accepted the derived credential with any statements added after
+   the revealed ones (witness on the real code: corpus/C17/cred-claim-added.json) *)
+Theorem cred_exact_statements_asis_refuted : forall F f0 f1 fadd fmul fsub fopp fdiv finv feqb H gen (enc : stmt -> F),
+  is_field F f0 f1 fadd fmul fsub fopp fdiv finv -> decides_eq F feqb ->
+  forall w (P D vdoc extra : list stmt) dri sg nonce r1 r2 bl pf,
+  derive_m F f0 f1 fadd fmul fsub fopp fdiv feqb H gen w (map enc (holder_messages P D)) sg nonce
+           (mask_of (length P + length D) (cred_reveal (length P) dri)) r1 r2 bl = Some pf ->
+  r1 <> f0 ->
+  verifier_messages vdoc = P ++ select (mask_of (length D) dri) D ->
+  verify_m F f0 f1 fadd fmul fsub fopp feqb H gen false Fixed w pf nonce (map enc (verifier_messages (vdoc ++ extra))) = VAccept.
+Proof. intros until enc. intros Hf Hd. exact (cred_added_asis_lemma F f0 f1 fadd fmul fsub fopp fdiv finv Hf feqb Hd H gen enc). Qed.
+Print Assumptions cred_exact_statements_asis_refuted.
+
+(* non-vacuity at the statement level: a credential with a blank subject and a urn:uuid: id (tokens 0..: literals, IRIs;
+   the credential id sorts AFTER urn:bnid:, the case of fix e86aea1): the holder finds the indexes, the restored order is
+   the signer's, the order-restoration condition of cred_disclose_and_prove holds *)
+Example cred_statements_nonvacuous :
+  let rk := {| bnid_pos := 3; blank_pos := 5 |} in
+  let P := [[TBlank 0; TPlain 1; TPlain 0]] in
+  let D := [[TPlain 4; TPlain 1; TPlain 2]; [TPlain 4; TPlain 2; TBlank 0]; [TBlank 0; TPlain 1; TPlain 0]; [TBlank 0; TPlain 2; TPlain 1]]%N in
+  (* canonical form of the derived document: the bnid IRI sorts BEFORE the credential id (token 4) *)
+  let C0 := [[TBnid 0; TPlain 1; TPlain 0]; [TPlain 4; TPlain 1; TPlain 2]; [TPlain 4; TPlain 2; TBnid 0]]%N in
+  doc_reveal_indexes D C0 = Some [2; 0; 1]%nat /\
+  verifier_messages (verifier_doc rk P C0) = P ++ select (mask_of (length D) [2; 0; 1]%nat) D /\
+  payload_bytes 5 (cred_reveal 1 [2; 0; 1]%nat) = Some [0; 5; 15]%N /\
+  verifier_messages (P ++ C0) <> P ++ select (mask_of (length D) [2; 0; 1]%nat) D.   (* without the order restoration *)
+Proof. vm_compute. repeat split. discriminate. Qed.
 
 (* ---------- non-vacuity: the hypotheses are satisfiable (Qc) and an honest derivation exists ---------- *)
 Definition qeqb (a b : Qc) : bool := if Qc_eq_dec a b then true else false.
